@@ -63,11 +63,13 @@ pub struct MemDev {
     fault: Fault,
     /// maximum length the device can have (None = growable like a regular file)
     pub fixed_size: Option<u64>,
+    /// writes that end beyond this offset are acknowledged and logged but not stored (sparse file model)
+    pub sparse_limit: Option<u64>,
 }
 
 impl MemDev {
     pub fn new(bytes: Vec<u8>) -> Self {
-        Self { st: Arc::new(Mutex::new(DevState { bytes, ..Default::default() })), pos: 0, fault: Fault::None, fixed_size: None }
+        Self { st: Arc::new(Mutex::new(DevState { bytes, ..Default::default() })), pos: 0, fault: Fault::None, fixed_size: None, sparse_limit: None }
     }
     pub fn with_fault(mut self, f: Fault) -> Self {
         self.fault = f;
@@ -153,6 +155,13 @@ impl AsyncWrite for MemDev {
         if let Some(fs) = me.fixed_size {
             if (pos + take) as u64 > fs {
                 return Poll::Ready(Err(io::Error::new(io::ErrorKind::Other, "no space left on device")));
+            }
+        }
+        if let Some(lim) = me.sparse_limit {
+            if (pos + take) as u64 > lim {
+                st.log.push(Op::Write { offset: pos as u64, data: vec![] });
+                me.pos += take as u64;
+                return Poll::Ready(Ok(take));
             }
         }
         if take > 0 {
